@@ -45,7 +45,7 @@ Theorem server_chain_recorded_only_if_proved_tls13 : forall O r s c,
   exists cm sch0 sg ctx,
     r_cert r = Some cm /\ c = cm_chain cm /\ c <> [] /\ r_cv r = Some (Some sch0, sg) /\
     vb13 O sch0 (r_prf r) tag_server (r_tr_cv r) = Ok ctx /\
-    ((cm_dc cm = [] /\ s_dc s = false /\ sch_in sch0 (r_offered r) = true /\ sig_ok O (cm_key cm) (Some sch0) ctx sg = true) \/
+    ((cm_dc cm = [] /\ s_dc s = false /\ sch_in sch0 (r_offered r) = true /\ sch_in sch0 (r_valid r) = true /\ sig_ok O (cm_key cm) (Some sch0) ctx sg = true) \/
      (exists d, cm_dc cm = [d] /\ s_dc s = true /\ dc_cv_alg d = sch0 /\ dc_proved O r cm d ctx sg)).
 Proof. exact client13_recorded. Qed.
 
@@ -171,7 +171,7 @@ Theorem scheme_must_be_offered : forall O r,
      exists cm d, r_cert r = Some cm /\ cm_dc cm = [d] /\
        sch_in (dc_cv_alg d) (r_dc_offered r) = true /\ sch_in (dc_alg d) (r_offered r) = true) /\
   (forall s c, client13 O r = Ok s -> s_server_chain s = Some c -> s_dc s = false ->
-     exists sch sg, r_cv r = Some (Some sch, sg) /\ sch_in sch (r_offered r) = true).
+     exists sch sg, r_cv r = Some (Some sch, sg) /\ sch_in sch (r_offered r) = true /\ sch_in sch (r_valid r) = true).
 Proof. exact scheme_offered_parts. Qed.
 
 (* the signed bytes determine the transcript and (TLS 1.3) the role, under H-ideal-hash *)
